@@ -33,6 +33,7 @@ func c08Valid(variant int) []byte {
 }
 
 func c08Decode(data []byte) error {
+	vrt.C09Guard(data, 0)
 	_, _, _, _, err := Decode(data)
 	return err
 }
